@@ -246,7 +246,19 @@ fn run(input: RunInput) -> ScenFuture {
                 }
                 9 => {
                     let routes = ["", "//", "/*", "/:x", "no-slash", "/a/../b", "/\u{0}", "/%", "/{", "/*rest", "/svc/", "/svc", "/p/", "/p/a/b", "/echo/", "/ECHO"];
-                    let route = if r.gen_bool(0.2) { "/".repeat(r.gen_range(1..70_000)) } else { routes[r.gen_range(0..routes.len())].to_string() };
+                    let route = match r.gen_range(0..10) {
+                        0 | 1 => "/".repeat(r.gen_range(1..70_000)),
+                        // long routes with multi-byte characters at every alignment
+                        2..=4 => {
+                            const A: &[&str] = &["a", "/", "é", "λ", "中", "🦀", "\u{0}", "%", "é"];
+                            let mut s = if r.gen_bool(0.7) { "/".to_string() } else { String::new() };
+                            for _ in 0..r.gen_range(1..300) {
+                                s.push_str(A[r.gen_range(0..A.len())]);
+                            }
+                            s
+                        }
+                        _ => routes[r.gen_range(0..routes.len())].to_string(),
+                    };
                     if let Ok((mut tx, mut rx)) = open_bi(&c).await {
                         let _ = tx.write_all(&good_request(&route, b"x")).await;
                         let _ = tx.finish();
@@ -257,7 +269,7 @@ fn run(input: RunInput) -> ScenFuture {
                                     Ok(_) => outcome = "answered",
                                     Err(e) => {
                                         if !too_big && !lossy {
-                                            w.violate("odd-route-got-no-valid-response", "adv", format!("route {:?} (len {}): {e}, {} bytes", &route[..route.len().min(20)], route.len(), bytes.len()));
+                                            w.violate("odd-route-got-no-valid-response", "adv", format!("route {:?} (len {}): {e}, {} bytes", route.chars().take(20).collect::<String>(), route.len(), bytes.len()));
                                         }
                                     }
                                 }
